@@ -31,16 +31,19 @@ def relMapLoop (data : Bytes) : Nat → Nat → M (List RelMapping)
     let rest ← relMapLoop data n (offset + 8)
     pure (⟨oid, filenode⟩ :: rest)
 
-/-- ParseRelMapFile; `none` = error return -/
+/-- ParseRelMapFile (with fixes/control/09: a file of exactly 524 bytes is the PostgreSQL 16 layout — 64 slots, crc at
+520 — anything else of at least 512 bytes the 12–15 layout — 62 slots, crc at 504); `none` = error return -/
 def parseRelMapFile (data : Bytes) : M (Option RelMapFile) := do
   if data.length < 512 then return none
   let magic ← uN 4 data 0
   if magic ≠ 0x592717 then return none
+  let maxMappings : Nat := if data.length = 524 then 64 else 62
   let numMappings := toSigned 32 (← uN 4 data 4)
-  if numMappings < 0 ∨ numMappings > 62 then return none
+  if numMappings < 0 ∨ numMappings > maxMappings then return none
   let mappings ← relMapLoop data numMappings.toNat 8
-  -- crcOffset = 8 + 62*8 = 504
-  let crc ← (if data.length ≥ 504 + 4 then uN 4 data 504 else pure 0 : M Nat)
+  -- crcOffset = 8 + maxMappings*8 = 504 or 520
+  let crcOffset := 8 + maxMappings * 8
+  let crc ← (if data.length ≥ crcOffset + 4 then uN 4 data crcOffset else pure 0 : M Nat)
   return some { magic, numMappings, mappings, crc }
 
 /-- (rm *RelMapFile) GetFilenode -/
